@@ -116,7 +116,7 @@ Qed.
 
 (* ---- extended to `break`, the endless `repeat`, calls of routines and `return` (Lang/Simulation3.v, SimulationTop.v) ----
    Every program made of routine definitions (at the top level, each name once; routines may call each other and themselves) and of the covered
-   statements, if / else, blocks, `repeat while`, counted `repeat n`, `repeat with v from a to b`, `repeat n with v from a to b`, `repeat n with v cycle`, `repeat all / group / location as x [with ...]`, `repeat in ... and ... as x [with ...]`, plain `repeat`, `break`, calls `f a b ...` whose arguments
+   statements (settings, assignments, constants, print, wait, commands), if / else, blocks, `repeat while`, counted `repeat n`, `repeat with v from a to b`, `repeat n with v from a to b`, `repeat n with v cycle`, `repeat all / group / location as x [with ...]`, `repeat in ... and ... as x [with ...]`, plain `repeat`, `break`, calls `f a b ...` whose arguments
    are ordinary values, and `return`, nested to any depth: the compiled code, loaded (routine bodies moved out of line) and run
    on the machine model from the initial state, finishes with exactly the events of the reference semantics. *)
 From Bardolph Require Import Lang.Builtins Lang.CallFrames Lang.Simulation3 Lang.SimulationTop.
@@ -158,8 +158,11 @@ Example C01_program_nonvacuous :
                                (SBlock [SRepeat (LCount (RLit (LInt 2))) (SBlock [SIf (RExpr (EBin BGt (EVar "total") (ELit (LInt 0)))) (SReturn (Some (RVar "cand"))) None; SPrint (Some (RVar "cand"))])]);
                        SReturn (Some (RLit (LStr "nobody")))]);
             SDefineRoutine "up" ["m"] (SBlock [SCall "down" [RVar "m"] false; SAssign "m" (RLit (LInt 99))]);
+            SDefineMacro "turn" (MLit (LInt 120));
+            SDefineMacro "lamp" (MLit (LStr "b"));
             SAssign "total" (RLit (LInt 0));
             SAssign "x" (RLit (LInt 0));
+            SReg R_HUE (RMacro "turn"); SOn (OpList [Target TLight (NMacro "lamp")]); SPrint None; SPrintln None;
             SCall "down" [RLit (LInt 3)] false;
             SCall "first_in" [RLit (LStr "g")] false;
             SRepeat LInfinite
